@@ -17,10 +17,22 @@
     `cache_history`, `cache_eq_fresh`; and the as-is defect `asis_cartesian_area_zero`,
     `asis_violates_input_independence` (repaired by `fixes/C05-cartesian-dim.patch`).
 
+  PART J (what the quadrature integrates): `jacCore_eq_triple` (the Jacobian both routines evaluate
+    is `|F·(A×B)|/|F|³`), `jacBary_closed` / `jacGauss_closed` (= the solid-angle density
+    `|n₁·(n₂×n₃)|/|F|³` of the flat triangle, halved resp. times the collapse factor `|1−b|`),
+    `baryF_partial_*` / `gaussF_partial_*` (the code's `dDaF`, `dDbF` are exactly the partial derivatives of
+    its parametrisation), `normalize_hasDerivAt` (the projected tangent is the derivative of `F/|F|`),
+    `bary_area_element` / `gauss_area_element` (the integrand IS `|∂ₐP × ∂_bP|` of `P = F/|F|`).
+    So the table theorems (polynomial exactness) are about quadrature of the true area element.
+
   NOT proved (tested by the harness against the exact spherical excess): the accuracy thresholds
   1e-6 / 1e-4 / 1e-2, convergence with the order, Σ = 4π, IEEE rounding.
 -/
 import Mathlib.Analysis.Real.Sqrt
+import Mathlib.Analysis.SpecialFunctions.Sqrt
+import Mathlib.Analysis.Calculus.Deriv.Mul
+import Mathlib.Analysis.Calculus.Deriv.Inv
+import Mathlib.Analysis.Calculus.Deriv.Add
 import Mathlib.Tactic.FieldSimp
 import Mathlib.Tactic.Positivity
 import UxVerif.Lemmas.Area
@@ -699,5 +711,207 @@ theorem default_rule_supported :
     Gen.Defaults.calculate_total_face_area_quadrature_rule = Gen.Defaults.compute_face_areas_quadrature_rule ∧
     Gen.Defaults.calculate_total_face_area_order = Gen.Defaults.compute_face_areas_order := by
   decide
+
+
+/-! ## J. The integrand IS the area element of the code's parametrisation -/
+
+/-- scalar triple product `F · (A × B)` -/
+def triple {K : Type} [Field K] (F A B : V3 K) : K := dot F (cross A B)
+
+/-- Gram identity: the radicand of `jacCore` is `den⁴ · (F·F)³ · (F·(A×B))²` -/
+theorem radicand_eq_triple {K : Type} [Field K] (F A B : V3 K) (den : K) :
+    radicand (dot F F) (dot A F) (dot B F) (dot A A) (dot A B) (dot B B) den
+      = den ^ 4 * (dot F F) ^ 3 * (triple F A B) ^ 2 := by
+  unfold radicand triple dot cross
+  ring
+
+/-- **closed form of the Jacobian both routines evaluate** (over ℝ, `F ≠ 0`):
+    `jacCore F A B = |F · (A × B)| / |F|³`. -/
+theorem jacCore_eq_triple (F A B : V3 ℝ) (hF : 0 < dot F F) :
+    jacCore Real.sqrt F A B = |triple F A B| / Real.sqrt (dot F F) ^ 3 := by
+  have hu : 0 < Real.sqrt (dot F F) := Real.sqrt_pos.mpr hF
+  have hs : Real.sqrt (dot F F) ^ 2 = dot F F := Real.sq_sqrt hF.le
+  rw [jacCore_eq, radicand_eq_triple]
+  have key : ∀ u s t : ℝ, 0 < u → u ^ 2 = s →
+      (1 / u * (1 / u) * (1 / u)) ^ 4 * s ^ 3 * t ^ 2 = (t / u ^ 3) ^ 2 := by
+    intro u s t hu hs
+    subst hs
+    field_simp
+  have e := key _ _ (triple F A B) hu hs
+  rw [e, Real.sqrt_sq_eq_abs, abs_div, abs_of_pos (pow_pos hu 3)]
+
+
+/-! ### the two parametrisations and their partial derivatives -/
+
+section param
+variable {K : Type} [Field K]
+
+/-- `w + h·v` -/
+def axpy (h : K) (v w : V3 K) : V3 K := ⟨w.x + h * v.x, w.y + h * v.y, w.z + h * v.z⟩
+
+/-- the point `dF` of `calculate_spherical_triangle_jacobian_barycentric` -/
+def baryF (n1 n2 n3 : V3 K) (a b : K) : V3 K :=
+  ⟨a * n1.x + b * n2.x + (1 - a - b) * n3.x, a * n1.y + b * n2.y + (1 - a - b) * n3.y,
+   a * n1.z + b * n2.z + (1 - a - b) * n3.z⟩
+/-- the point `dF` of `calculate_spherical_triangle_jacobian` (collapsed square) -/
+def gaussF (n1 n2 n3 : V3 K) (a b : K) : V3 K :=
+  ⟨(1 - b) * ((1 - a) * n1.x + a * n2.x) + b * n3.x, (1 - b) * ((1 - a) * n1.y + a * n2.y) + b * n3.y,
+   (1 - b) * ((1 - a) * n1.z + a * n2.z) + b * n3.z⟩
+/-- the code's `dDaF`, `dDbF` of the collapsed square -/
+def gaussDa (n1 n2 : V3 K) (b : K) : V3 K :=
+  ⟨(1 - b) * (n2.x - n1.x), (1 - b) * (n2.y - n1.y), (1 - b) * (n2.z - n1.z)⟩
+def gaussDb (n1 n2 n3 : V3 K) (a : K) : V3 K :=
+  ⟨(-(1 - a)) * n1.x - a * n2.x + n3.x, (-(1 - a)) * n1.y - a * n2.y + n3.y,
+   (-(1 - a)) * n1.z - a * n2.z + n3.z⟩
+
+theorem jacBary_unfold (sqrt : K → K) (n1 n2 n3 : V3 K) (a b : K) :
+    jacBary sqrt n1 n2 n3 a b = jacCore sqrt (baryF n1 n2 n3 a b) (vsub n1 n3) (vsub n2 n3) / 2 := rfl
+theorem jacGauss_unfold (sqrt : K → K) (n1 n2 n3 : V3 K) (a b : K) :
+    jacGauss sqrt n1 n2 n3 a b
+      = jacCore sqrt (gaussF n1 n2 n3 a b) (gaussDa n1 n2 b) (gaussDb n1 n2 n3 a) := rfl
+
+/-- the maps are affine in each parameter and the vectors the code calls `dDaF`, `dDbF` are
+    EXACTLY their partial derivatives (difference quotients without remainder) -/
+theorem baryF_partial_a (n1 n2 n3 : V3 K) (a b h : K) :
+    baryF n1 n2 n3 (a + h) b = axpy h (vsub n1 n3) (baryF n1 n2 n3 a b) := by
+  unfold baryF axpy vsub; congr 1 <;> ring
+theorem baryF_partial_b (n1 n2 n3 : V3 K) (a b h : K) :
+    baryF n1 n2 n3 a (b + h) = axpy h (vsub n2 n3) (baryF n1 n2 n3 a b) := by
+  unfold baryF axpy vsub; congr 1 <;> ring
+theorem gaussF_partial_a (n1 n2 n3 : V3 K) (a b h : K) :
+    gaussF n1 n2 n3 (a + h) b = axpy h (gaussDa n1 n2 b) (gaussF n1 n2 n3 a b) := by
+  unfold gaussF axpy gaussDa; congr 1 <;> ring
+theorem gaussF_partial_b (n1 n2 n3 : V3 K) (a b h : K) :
+    gaussF n1 n2 n3 a (b + h) = axpy h (gaussDb n1 n2 n3 a) (gaussF n1 n2 n3 a b) := by
+  unfold gaussF axpy gaussDb; congr 1 <;> ring
+
+/-- the triple product is constant on the flat triangle … -/
+theorem triple_bary (n1 n2 n3 : V3 K) (a b : K) :
+    triple (baryF n1 n2 n3 a b) (vsub n1 n3) (vsub n2 n3) = triple n1 n2 n3 := by
+  unfold triple baryF vsub dot cross; ring
+/-- … and picks up the collapse factor `1 − b` on the square -/
+theorem triple_gauss (n1 n2 n3 : V3 K) (a b : K) :
+    triple (gaussF n1 n2 n3 a b) (gaussDa n1 n2 b) (gaussDb n1 n2 n3 a) = (1 - b) * triple n1 n2 n3 := by
+  unfold triple gaussF gaussDa gaussDb dot cross; ring
+
+/-- the projected tangent the code forms (`dDaG * dDenomTerm`) -/
+def tang (sqrt : K → K) (F A : V3 K) : V3 K :=
+  let den := 1 / sqrt (F.x * F.x + F.y * F.y + F.z * F.z) * (1 / sqrt (F.x * F.x + F.y * F.y + F.z * F.z))
+    * (1 / sqrt (F.x * F.x + F.y * F.y + F.z * F.z))
+  ⟨(A.x * (F.y * F.y + F.z * F.z) - F.x * (A.y * F.y + A.z * F.z)) * den,
+   (A.y * (F.x * F.x + F.z * F.z) - F.y * (A.x * F.x + A.z * F.z)) * den,
+   (A.z * (F.x * F.x + F.y * F.y) - F.z * (A.x * F.x + A.y * F.y)) * den⟩
+
+/-- radial projection onto the unit sphere -/
+def nrm (sqrt : K → K) (v : V3 K) : V3 K :=
+  ⟨v.x / sqrt (dot v v), v.y / sqrt (dot v v), v.z / sqrt (dot v v)⟩
+
+/-- `jacCore` is, literally, the norm of the cross product of the two projected tangents -/
+theorem jacCore_is_cross_norm (sqrt : K → K) (F A B : V3 K) :
+    jacCore sqrt F A B
+      = sqrt (dot (cross (tang sqrt F A) (tang sqrt F B)) (cross (tang sqrt F A) (tang sqrt F B))) := rfl
+
+end param
+
+/-- **the projected tangent is the derivative of the normalised point**: moving the flat point along
+    `F + t·A`, the point on the sphere `(F + tA)/|F + tA|` has velocity `tang F A` at `t = 0`
+    (component-wise; `F ≠ 0`). -/
+theorem normalize_hasDerivAt (F A : V3 ℝ) (hF : 0 < dot F F) :
+    HasDerivAt (fun t => (nrm Real.sqrt (axpy t A F)).x) (tang Real.sqrt F A).x 0 ∧
+    HasDerivAt (fun t => (nrm Real.sqrt (axpy t A F)).y) (tang Real.sqrt F A).y 0 ∧
+    HasDerivAt (fun t => (nrm Real.sqrt (axpy t A F)).z) (tang Real.sqrt F A).z 0 := by
+  have hu : 0 < Real.sqrt (dot F F) := Real.sqrt_pos.mpr hF
+  have hs : Real.sqrt (dot F F) ^ 2 = dot F F := Real.sq_sqrt hF.le
+  have hg : ∀ p q : ℝ, HasDerivAt (fun t : ℝ => p + t * q) q 0 := by
+    intro p q
+    simpa using HasDerivAt.const_add p (HasDerivAt.mul_const (hasDerivAt_id (0 : ℝ)) q)
+  have hh : HasDerivAt (fun t : ℝ => (F.x + t * A.x) * (F.x + t * A.x) + (F.y + t * A.y) * (F.y + t * A.y)
+      + (F.z + t * A.z) * (F.z + t * A.z)) (2 * dot A F) 0 := by
+    have := HasDerivAt.add (HasDerivAt.add (HasDerivAt.mul (hg F.x A.x) (hg F.x A.x))
+      (HasDerivAt.mul (hg F.y A.y) (hg F.y A.y))) (HasDerivAt.mul (hg F.z A.z) (hg F.z A.z))
+    refine HasDerivAt.congr_deriv this ?_
+    simp only [dot]; ring
+  have h0 : (F.x + 0 * A.x) * (F.x + 0 * A.x) + (F.y + 0 * A.y) * (F.y + 0 * A.y)
+      + (F.z + 0 * A.z) * (F.z + 0 * A.z) = dot F F := by simp only [dot]; ring
+  have hq := HasDerivAt.sqrt hh (by rw [h0]; exact hF.ne')
+  have hq0 : Real.sqrt ((F.x + 0 * A.x) * (F.x + 0 * A.x) + (F.y + 0 * A.y) * (F.y + 0 * A.y)
+      + (F.z + 0 * A.z) * (F.z + 0 * A.z)) ≠ 0 := by rw [h0]; exact hu.ne'
+  have fin : ∀ p q g : ℝ, g = (q * dot F F - p * dot A F) * (1 / Real.sqrt (dot F F) * (1 / Real.sqrt (dot F F))
+      * (1 / Real.sqrt (dot F F))) →
+      HasDerivAt (fun t : ℝ => (p + t * q) / Real.sqrt ((F.x + t * A.x) * (F.x + t * A.x)
+        + (F.y + t * A.y) * (F.y + t * A.y) + (F.z + t * A.z) * (F.z + t * A.z))) g 0 := by
+    intro p q g hgd
+    refine HasDerivAt.congr_deriv (HasDerivAt.div (hg p q) hq hq0) ?_
+    rw [hgd, h0]
+    have key : ∀ u s : ℝ, 0 < u → u ^ 2 = s → ∀ ta : ℝ,
+        (q * s - p * ta) * (1 / u * (1 / u) * (1 / u)) = (q * u - (p + 0 * q) * (2 * ta / (2 * u))) / u ^ 2 := by
+      intro u s hu' hs' ta; subst hs'; field_simp; ring
+    exact (key _ _ hu hs _).symm
+  refine ⟨?_, ?_, ?_⟩
+  · apply fin F.x A.x; simp only [tang, dot]; ring
+  · apply fin F.y A.y; simp only [tang, dot]; ring
+  · apply fin F.z A.z; simp only [tang, dot]; ring
+
+/-- **the integrand of the triangular rules is the solid-angle density of the flat triangle**:
+    at the point `F = a n₁ + b n₂ + (1−a−b) n₃`, `jacBary = |n₁·(n₂×n₃)| / (2 |F|³)`. -/
+theorem jacBary_closed (n1 n2 n3 : V3 ℝ) (a b : ℝ) (hF : 0 < dot (baryF n1 n2 n3 a b) (baryF n1 n2 n3 a b)) :
+    jacBary Real.sqrt n1 n2 n3 a b
+      = |triple n1 n2 n3| / (2 * Real.sqrt (dot (baryF n1 n2 n3 a b) (baryF n1 n2 n3 a b)) ^ 3) := by
+  rw [jacBary_unfold, jacCore_eq_triple _ _ _ hF, triple_bary, div_div, mul_comm]
+
+/-- … and of the Gauss rules the same density times the collapse factor `|1 − b|` of the square. -/
+theorem jacGauss_closed (n1 n2 n3 : V3 ℝ) (a b : ℝ) (hF : 0 < dot (gaussF n1 n2 n3 a b) (gaussF n1 n2 n3 a b)) :
+    jacGauss Real.sqrt n1 n2 n3 a b
+      = |1 - b| * |triple n1 n2 n3| / Real.sqrt (dot (gaussF n1 n2 n3 a b) (gaussF n1 n2 n3 a b)) ^ 3 := by
+  rw [jacGauss_unfold, jacCore_eq_triple _ _ _ hF, triple_gauss, abs_mul]
+
+
+/-- **the integrand IS the area element of the code's parametrisation (triangular rules)**: the map
+    `P(a,b) = F(a,b)/|F(a,b)|`, `F = a n₁ + b n₂ + (1−a−b) n₃`, of the flat triangle onto the sphere has
+    partial derivatives `∂ₐP`, `∂_bP` (component-wise `HasDerivAt`), and `2·jacBary = |∂ₐP × ∂_bP|` — the
+    factor 2 is the area of the reference triangle that the weights (`Σ w = 1`) are normalised by. -/
+theorem bary_area_element (n1 n2 n3 : V3 ℝ) (a b : ℝ)
+    (hF : 0 < dot (baryF n1 n2 n3 a b) (baryF n1 n2 n3 a b)) :
+    ∃ Pa Pb : V3 ℝ,
+      (HasDerivAt (fun t => (nrm Real.sqrt (baryF n1 n2 n3 (a + t) b)).x) Pa.x 0 ∧
+       HasDerivAt (fun t => (nrm Real.sqrt (baryF n1 n2 n3 (a + t) b)).y) Pa.y 0 ∧
+       HasDerivAt (fun t => (nrm Real.sqrt (baryF n1 n2 n3 (a + t) b)).z) Pa.z 0) ∧
+      (HasDerivAt (fun t => (nrm Real.sqrt (baryF n1 n2 n3 a (b + t))).x) Pb.x 0 ∧
+       HasDerivAt (fun t => (nrm Real.sqrt (baryF n1 n2 n3 a (b + t))).y) Pb.y 0 ∧
+       HasDerivAt (fun t => (nrm Real.sqrt (baryF n1 n2 n3 a (b + t))).z) Pb.z 0) ∧
+      2 * jacBary Real.sqrt n1 n2 n3 a b = Real.sqrt (dot (cross Pa Pb) (cross Pa Pb)) := by
+  refine ⟨tang Real.sqrt (baryF n1 n2 n3 a b) (vsub n1 n3), tang Real.sqrt (baryF n1 n2 n3 a b) (vsub n2 n3), ?_, ?_, ?_⟩
+  · simp only [baryF_partial_a]; exact normalize_hasDerivAt _ _ hF
+  · simp only [baryF_partial_b]; exact normalize_hasDerivAt _ _ hF
+  · rw [jacBary_unfold, jacCore_is_cross_norm]; ring
+
+/-- **… and of the Gauss rules** on the collapsed square `F = (1−b)((1−a) n₁ + a n₂) + b n₃`:
+    `jacGauss = |∂ₐP × ∂_bP|`. -/
+theorem gauss_area_element (n1 n2 n3 : V3 ℝ) (a b : ℝ)
+    (hF : 0 < dot (gaussF n1 n2 n3 a b) (gaussF n1 n2 n3 a b)) :
+    ∃ Pa Pb : V3 ℝ,
+      (HasDerivAt (fun t => (nrm Real.sqrt (gaussF n1 n2 n3 (a + t) b)).x) Pa.x 0 ∧
+       HasDerivAt (fun t => (nrm Real.sqrt (gaussF n1 n2 n3 (a + t) b)).y) Pa.y 0 ∧
+       HasDerivAt (fun t => (nrm Real.sqrt (gaussF n1 n2 n3 (a + t) b)).z) Pa.z 0) ∧
+      (HasDerivAt (fun t => (nrm Real.sqrt (gaussF n1 n2 n3 a (b + t))).x) Pb.x 0 ∧
+       HasDerivAt (fun t => (nrm Real.sqrt (gaussF n1 n2 n3 a (b + t))).y) Pb.y 0 ∧
+       HasDerivAt (fun t => (nrm Real.sqrt (gaussF n1 n2 n3 a (b + t))).z) Pb.z 0) ∧
+      jacGauss Real.sqrt n1 n2 n3 a b = Real.sqrt (dot (cross Pa Pb) (cross Pa Pb)) := by
+  refine ⟨tang Real.sqrt (gaussF n1 n2 n3 a b) (gaussDa n1 n2 b), tang Real.sqrt (gaussF n1 n2 n3 a b) (gaussDb n1 n2 n3 a), ?_, ?_, ?_⟩
+  · simp only [gaussF_partial_a]; exact normalize_hasDerivAt _ _ hF
+  · simp only [gaussF_partial_b]; exact normalize_hasDerivAt _ _ hF
+  · rw [jacGauss_unfold, jacCore_is_cross_norm]
+
+-- non-vacuity: the octant triangle at its centroid meets the hypothesis, its triple product is 1, and the
+-- density there is 1 / (2 |F|³) with |F|² = 1/3
+example : 0 < dot (baryF (⟨1, 0, 0⟩ : V3 ℝ) ⟨0, 1, 0⟩ ⟨0, 0, 1⟩ (1/3) (1/3)) (baryF ⟨1, 0, 0⟩ ⟨0, 1, 0⟩ ⟨0, 0, 1⟩ (1/3) (1/3))
+    ∧ triple (⟨1, 0, 0⟩ : V3 ℝ) ⟨0, 1, 0⟩ ⟨0, 0, 1⟩ = 1 := by
+  constructor <;> norm_num [dot, baryF, triple, cross]
+example : jacBary Real.sqrt ⟨1, 0, 0⟩ ⟨0, 1, 0⟩ ⟨0, 0, 1⟩ (1/3) (1/3) = 1 / (2 * Real.sqrt (1/3) ^ 3) := by
+  rw [jacBary_closed _ _ _ _ _ (by norm_num [dot, baryF])]
+  norm_num [dot, baryF, triple, cross]
+example : 0 < dot (gaussF (⟨1, 0, 0⟩ : V3 ℝ) ⟨0, 1, 0⟩ ⟨0, 0, 1⟩ (1/2) (1/2)) (gaussF ⟨1, 0, 0⟩ ⟨0, 1, 0⟩ ⟨0, 0, 1⟩ (1/2) (1/2)) := by
+  norm_num [dot, gaussF]
+
 
 end UxVerif.C05
